@@ -32,6 +32,9 @@ type crashImage struct {
 	cut    int64
 	gcInfo string
 	pre    []*mkey // C07: the model right before the GC pass during which the image was taken
+	// affected (torn variants of a GC write into a file that is being rewritten in place): keys whose record in the
+	// old file content overlaps the bytes that the partial write replaced
+	affected map[string]bool
 }
 
 // snapshotter copies the home directory at hook events.
@@ -211,6 +214,14 @@ func (s *snapshotter) handle(name string, args ...interface{}) {
 				buf = append(buf, old[c:]...)
 			}
 			os.WriteFile(filepath.Join(timg.dir, rel), buf, 0644)
+			if name == "fs.write.after" && int64(len(old)) > from {
+				timg.affected = map[string]bool{}
+				for _, rc := range verifkit.ScanBytes(old, 250, s.r.h.Cfg.BodyMax+1000) {
+					if int64(rc.Offset) < c && int64(rc.Offset+rc.Size) > from {
+						timg.affected[string(rc.Key)] = true
+					}
+				}
+			}
 			s.images = append(s.images, timg)
 		}
 	}
@@ -539,13 +550,15 @@ func checkRecoveredGC(r *histRunner, img *crashImage, res *recResult, st *crashS
 		if got.S == "error" {
 			return fmt.Errorf("%s: Get(%q) after recovery returned error %q; before GC: %s", desc, key, got.Err, m.describe())
 		}
+		if img.affected[string(key)] && verifkit.Known("C07-torn-inplace") && got.S != "error" {
+			// known finding: a relocated record partially written over its own (or a neighbour's not yet relocated) source:
+			// both copies of the affected keys may be gone; recovery then serves an older version or a miss
+			st.excluded["C07-torn-inplace"]++
+			continue
+		}
 		switch m.State {
 		case stLive:
 			if got.S != "live" {
-				if img.tornOf != "" && verifkit.Known("C07-torn-inplace") {
-					st.excluded["C07-torn-inplace"]++
-					continue
-				}
 				return fmt.Errorf("%s: key %q reads as %s after recovery; before GC it was %s", desc, key, got.S, m.describe())
 			}
 			if got.Len != len(m.Val) || got.Sum != sumBytes(m.Val) || got.Flag != m.Flag {
